@@ -15,6 +15,10 @@ pub enum Rule {
     WErr { cls: String, call: u32, errno: i32, times: u32 },
     REof { cls: String, n: u64 },
     OpenErr { cls: String, errno: i32 },
+    /// getenv(name) returns value
+    Env { name: String, value: String },
+    /// getenv(name) returns NULL
+    UnEnv { name: String },
 }
 
 #[derive(Clone, Debug, PartialEq, Serialize, Deserialize)]
@@ -51,6 +55,8 @@ impl Plan {
                 Rule::WErr { cls, call, errno, times } => s.push_str(&format!("werr {} {} {} {}\n", cls, call, errno, times)),
                 Rule::REof { cls, n } => s.push_str(&format!("reof {} {}\n", cls, n)),
                 Rule::OpenErr { cls, errno } => s.push_str(&format!("openerr {} {}\n", cls, errno)),
+                Rule::Env { name, value } => s.push_str(&format!("env {} {}\n", name, value)),
+                Rule::UnEnv { name } => s.push_str(&format!("unenv {}\n", name)),
             }
         }
         s
